@@ -367,6 +367,15 @@ class World:
         reaches the intended ones through configure() (how == "configure")."""
         cred_kwargs = dict(cred_kwargs or {})
         self.level = level
+        # Address reuse: every fourth world first lets the collector free what earlier
+        # worlds left behind (a finished Client sits in a reference cycle), so that the
+        # credentials / client / model objects created next are likely to land on the
+        # addresses of dead ones - anything remembered under id(obj) turns stale.
+        World._created = getattr(World, "_created", 0) + 1
+        if World._created % 4 == 0:
+            import gc
+
+            gc.collect()
         self.creds = credentials_for(level, community=community, **cred_kwargs)
         users = []
         u = agent_user_for(level, **cred_kwargs)
